@@ -597,6 +597,7 @@ let run_ping kvs ikvs =
     | 'h' -> String.sub p 0 (n / 2) | _ -> p in
   let pongs_of reaction p =
     List.concat (List.init (String.length reaction) (fun i ->
+      if reaction.[i] = 'q' then [] (* the peer PINGS with the same payload: not a Pong, no event for the waiting calls *) else
       let q = PgPong (bytes_of_string (pong_payload reaction.[i] p)) in if reaction.[i] = 'd' then [q; q] else [q])) in
   let calls = List.mapi (fun i r -> (i, r, (if i < np then Some (List.nth pings i) else None))) script in
   let evs =
@@ -695,6 +696,17 @@ let run_wsjson kvs ikvs =
     (match wj_read un [(n_of_int 1, bytes_of_string (unhex (get kvs "doc")))] with
      | (WJErrClosed1007, _) -> "readfailed=true closecode=1007 laterwritefails=true"
      | _ -> "readfailed=false closecode=-1 laterwritefails=false")
+  | "rawwrite" ->
+    (* four writes: RawMessage(nil) = the value null; a malformed RawMessage cannot be encoded: no message; a valid one; a nested nil one.
+       The model: one text message per encodable value, none for the other (wj_write with a codec that rejects the malformed document) *)
+    let marshal v = if v = bytes_of_string "{\"a\":" then None else Some v in
+    let vals = [bytes_of_string "null"; bytes_of_string "{\"a\":"; bytes_of_string "{\"a\":[1,2]}"; bytes_of_string "{\"k\":null}"] in
+    let msgs = List.filter_map (fun v -> wj_write marshal v) vals in
+    let docs = String.concat "|" (List.map (fun (t, p) ->
+        let b = string_of_bytes p in
+        let b = if String.length b > 0 && b.[String.length b - 1] = '\n' then String.sub b 0 (String.length b - 1) else b in
+        Printf.sprintf "%b:%s" (int_of_n t = 1) b) msgs) in
+    Printf.sprintf "nilraw=true badraw=true goodraw=true nested=true docs=%s extra=0" (hex docs)
   | "overlap" -> "readfailed=true aok=true bok=true"     (* a rejected document, then two overlapping reads: each gets its own value *)
   | _ -> "equal=true"
 
